@@ -103,4 +103,10 @@ SPECS = {
         "info_meaning": "[writing cells; writing cells inside the builder model; reading cells]",
         "assumptions": ["documented lossy conversions (float narrowing, integer to float, decimal truncation to scale) are the ISkip cells of interp and are not judged here", "malformed temporal / decimal strings are judged in C14 / C15; offsets overflow of 32-bit lists needs 2^31 elements and is covered by the theorem on increment_last only"],
     },
+    "C16": {
+        "id": "C16", "runners": ["RunC16"],
+        "partial": ["a theorem shows that the model cannot panic; that the Rust cannot is as good as the faithfulness of the model at each program point, which the other checks' correspondence runs and this sweep sample", "from_type (budget / depth limit) is not modelled: recursive and deep types are covered by the sweep only"],
+        "info_meaning": "[calls of the adversarial sweep]",
+        "assumptions": ["the harness is built with overflow-checks and debug-assertions on, so arithmetic overflow is a panic", "a call taking more than 5 s counts as unbounded running; the whole run has a watchdog"],
+    },
 }
